@@ -513,4 +513,33 @@ theorem step_opR (p : CheckedProgram) (o : BinOp) (x y : Word) (k : Stack) :
         | .ok r => .next (.ret (.int r) k) none
         | .error w => .stuck w) := rfl
 
+/-! ## the shape of pure terms (used by the relations of Scc.Fun2Core.SemRel) -/
+
+/-- terms whose suspension (by-name argument / binding) is their value: variables and `new` -/
+def pureS : Term → Bool
+  | .var .. => true
+  | .new .. => true
+  | .paren t => pureS t
+  | _ => false
+
+mutual
+  /-- pure terms: variables, literals, `+ - *`, constructors, `new` (clauses accepted by `gc`),
+  parentheses; an argument of codata type is a variable or a `new` -/
+  def pureFO (p : CheckedProgram) (gc : Clauses → Bool) : Term → Bool
+    | .var .. => true
+    | .lit _ => true
+    | .op a o b => o != .div && o != .rem && pureFO p gc a && pureFO p gc b
+    | .ctor _ as _ => pureFOs p gc as
+    | .new cs _ => gc cs
+    | .paren t => pureFO p gc t
+    | _ => false
+  def pureFOs (p : CheckedProgram) (gc : Clauses → Bool) : Terms → Bool
+    | .nil => true
+    | .cons t r =>
+      pureFO p gc t &&
+      (match t.getType with
+        | some ty => !isCodataTy p ty || pureS t
+        | none => true) && pureFOs p gc r
+end
+
 end Scc.Fun2Core.Sem
